@@ -282,6 +282,7 @@ pub fn parse_rscript(t: &mut Toks) -> PResult<VecDeque<REv>> {
             "e" => REv::Eof,
             "x" => REv::Err,
             "i" => REv::Intr,
+            "n" => REv::Never,
             _ => {
                 if let Some(h) = s.strip_prefix("c:") {
                     REv::Chunk(unhex(&format!("x{}", h))?)
